@@ -283,6 +283,44 @@ func c12Check(c *C12Case) (ds []ev.Discrepancy, cls []string) {
 	return ds, keys(classes)
 }
 
+// c12Tweak returns a copy of j with one small edit that keeps accounts, payees, dates and counts.
+func c12Tweak(t *rapid.T, j *m.Journal) *m.Journal {
+	var nj m.Journal
+	if err := json.Unmarshal(mustJSON(j), &nj); err != nil {
+		panic(err)
+	}
+	var txs []*m.Tx
+	for i := range nj.Entries {
+		if nj.Entries[i].Tx != nil {
+			txs = append(txs, nj.Entries[i].Tx)
+		}
+	}
+	kind := rapid.IntRange(0, 2).Draw(t, "tweakkind")
+	if len(txs) == 0 {
+		kind = 2
+	}
+	switch kind {
+	case 0: // postings of one transaction in reverse order
+		tx := rapid.SampledFrom(txs).Draw(t, "tweaktx")
+		for a, b := 0, len(tx.Body)-1; a < b; a, b = a+1, b-1 {
+			tx.Body[a], tx.Body[b] = tx.Body[b], tx.Body[a]
+		}
+	case 1: // commodities of one transaction on the other side
+		tx := rapid.SampledFrom(txs).Draw(t, "tweaktx")
+		for _, p := range tx.Postings() {
+			if p.Amt != nil && p.Amt.Sym != "" {
+				p.Amt.Left = !p.Amt.Left
+				p.Amt.SymSpace = true
+				p.Amt.SignBefore = false
+			}
+		}
+	default: // a comment line in front
+		txt := " typed later"
+		nj.Entries = append([]m.Entry{{CommentLine: &txt, Blank: 1}}, nj.Entries...)
+	}
+	return &nj
+}
+
 var c12JOpts = gen.JournalOpts{MinEntries: 0, MaxEntries: 4, Directives: true, TopComments: false, Tx: gen.TxOpts{MaxPostings: 3, MaxScale: 2, MaxDigits: 4}}
 
 var recC12 = ev.New("C12")
@@ -306,7 +344,11 @@ func TestC12(t *testing.T) {
 		for s := 0; s < steps; s++ {
 			f := rapid.IntRange(0, n-1).Draw(t, "file")
 			var j *m.Journal
-			if rapid.IntRange(0, 2).Draw(t, "bodyonly") == 0 {
+			if k := rapid.IntRange(0, 4).Draw(t, "tweak"); k == 0 {
+				// the same journal, said slightly differently: postings in another order, a commodity on
+				// the other side of its number, a comment line more — what typing in a file looks like
+				j = c12Tweak(t, cur[f])
+			} else if rapid.IntRange(0, 2).Draw(t, "bodyonly") == 0 {
 				// same include list, other body: the update path that does not refresh the include tree
 				j = gen.GenFileIncluding(t, p, pools, c12JOpts, f, gen.IncludeTargets(cur[f], f, n))
 			} else {
